@@ -28,6 +28,7 @@ type SpecCtx struct {
 	oldEnv map[string]*Val
 	depth int
 	allocMark *Term
+	inOld     bool
 }
 
 func (c *SpecCtx) fail(format string, a ...interface{}) {
@@ -102,6 +103,12 @@ func (c *SpecCtx) lookupIdent(name string) *Val {
 	}
 	if v, ok := c.env[name]; ok {
 		return v
+	}
+	if c.inOld && c.fr != nil {
+		// inside old(): parameter names denote their values at function entry
+		if v, ok := c.fr.entry[name]; ok {
+			return v
+		}
 	}
 	if c.fr != nil {
 		if v, ok := c.fr.lets[name]; ok {
@@ -504,6 +511,7 @@ func (c *SpecCtx) call(e *ast.CallExpr) *Val {
 			}
 			sub := *c
 			sub.heap = c.old
+			sub.inOld = true
 			if c.oldEnv != nil {
 				sub.env = c.oldEnv
 			}
